@@ -299,7 +299,7 @@ func (c *fakeClient) FilterLogs(ctx context.Context, q ethereum.FilterQuery) ([]
 			}
 			logs = append(logs, types.Log{
 				Address: a, Topics: []common.Hash{topicOf(l.T)}, Data: []byte{byte(idx)},
-				BlockNumber: k, BlockHash: c.header(k).Hash(), Index: uint(idx), TxIndex: uint(idx), Removed: l.R,
+				BlockNumber: k, BlockHash: c.header(k).Hash(), Index: uint(idx), TxIndex: uint(idx / 2), Removed: l.R, // two logs per transaction: several watched contracts log in one transaction
 			})
 		}
 		if k == ^uint64(0) {
